@@ -26,7 +26,7 @@ def literal_cases(rng, tier):
     out = []
     def add(text, val, form):
         out.append({"text": text, "want": f32bits(val), "form": form})
-    for n in [0, 1, 2, 7, 10, 255, 256, 1000, 65535, 123456, 999999, 16777215]:
+    for n in [0, 1, 2, 7, 10, 255, 256, 1000, 65535, 123456, 999999, 16777215, 16777217, 2 ** 31 - 1, 2 ** 31, 2 ** 32 - 1, 2 ** 32, 2 ** 40 + 12345]:
         add(str(n), float(n), "integer")
         add("$%x" % n, float(n), "hex-dollar")
         add("0x%X" % n, float(n), "hex-0x")
